@@ -292,6 +292,19 @@ func (e editor) list(from *Selection, to *Selection, m *meta.List, new bool, str
 		var newItem bool
 		toChild = nil
 
+		// an entry is identified by its key, an entry that lacks (part of) it cannot be merged or stored
+		if len(m.KeyMeta()) > 0 {
+			complete := len(key) == len(m.KeyMeta())
+			for _, k := range key {
+				if k == nil {
+					complete = false
+				}
+			}
+			if !complete {
+				return fmt.Errorf("%w. entry %d of list %s is missing its key", fc.BadRequestError, fromRequest.Row, from.Path)
+			}
+		}
+
 		toRequest.First = true
 		toRequest.SetRow(fromRequest.Row64)
 		toRequest.Selection = to
